@@ -226,7 +226,7 @@ def run_algebra(spec):
                 errs.append(np.linalg.norm(Ud - ex) / np.linalg.norm(ex))
             require(np.linalg.norm(M.mpo_to_dense(H1) - A_before) == 0, 'make_U-modified-H', 'make_U_%s(dt=%r) changed the W tensors of H' % (spec['U'], dt), U=spec['U'], **tags)
             # documented: both are first-order propagators: error O(dt^2) per step; U_II exact for (sums of) commuting on-site terms
-            if errs[0] > 1e-9:
+            if 1e-9 < errs[0] <= 0.05:  # (asymptotic regime only: |dt H| small)
                 order = np.log2(errs[1] / errs[2]) if errs[2] > 1e-13 else 99
                 require(order >= 1.6, 'make_U-order', 'U_%s errors %r on dt, dt/2, dt/4: observed order %.2f < 2' % (spec['U'], errs, order), U=spec['U'], **tags)
                 require(errs[0] <= 20 * (abs(dt) * np.linalg.norm(A, 2)) ** 2 * max(1, L), 'make_U-error-size', 'error %r for |dt H| = %r' % (errs[0], abs(dt) * np.linalg.norm(A, 2)), U=spec['U'], **tags)
@@ -254,6 +254,10 @@ def run_algebra(spec):
                 err = H1.apply(phi, opts)
             except Exception as e:
                 if type(e).__name__ == 'TenpyInconsistencyError':
+                    raise Skip()
+                if method == 'zip_up' and chi_max is not None and 'infs or NaNs' in str(e):
+                    # zip_up is documented to assume an MPO close to unity: truncating the intermediate states of a generic operator
+                    # can annihilate the state
                     raise Skip()
                 raise
             res = M.mps_to_dense(phi).reshape(-1)
@@ -396,7 +400,12 @@ def run_infinite(spec):
             raise Skip()
         N = lat.N_sites
         d = site.dim
-        H = model.calc_H_MPO()
+        try:
+            H = model.calc_H_MPO()
+        except ValueError as e:
+            if 'dead ends' in str(e) or "can't determine all charges" in str(e):
+                raise Skip()  # the generated strengths vanish on some site: H has no term there
+            raise
         H.test_sanity()
         rng = np.random.default_rng(spec['state'])
         # product state with the period of the MPS unit cell
